@@ -525,13 +525,15 @@ def oracle_checks(ctx: Ctx, c, out, budget):
     for k, v in out.items():
         if isinstance(v, Exception):
             fail("crash", type(v).__name__, f"route {k} raised {type(v).__name__}: {v}", {"route": str(k)})
-    if nfail:
-        return nfail
+            return nfail
     for k, v in out.items():
         if v.shape != (N,):
             fail("shape", list(v.shape), f"route {k} returned shape {v.shape}, expected ({N},)", {"route": str(k)})
-    if nfail:
-        return nfail
+            return nfail
+    for k, v in out.items():
+        if not np.all(np.isfinite(v)):
+            fail("finite", None, f"route {k} returns nan/inf on a geometry with distinct atoms: {v.tolist()}", {"route": str(k)})
+            return nfail
     W = np.array([out[("atom", A)] for A in range(M)])
     if not np.all(np.isfinite(W)):
         fail("finite", None, "a weight is nan/inf on a geometry with distinct atoms", {"weights": W.tolist()})
@@ -714,8 +716,9 @@ def run(ctx: Ctx):
             ctx.fail("corr_becke", f"model:{case_key(c)}", dev,
                      f"Coq model ({kind} bigQ) and implementation disagree beyond 1e-10 on {case_key(c)}; {txt}; "
                      "no violation of the partition-of-unity property itself found on this geometry", case_replay(c), found_input=False)
-        s = meta[len(meta) // 2]
-        ctx.sample({"case": case_key(s[0]), "instance": s[2], "impl_call": s[1]["call"].tolist()})
+        if meta:
+            s = meta[len(meta) // 2]
+            ctx.sample({"case": case_key(s[0]), "instance": s[2], "impl_call": s[1]["call"].tolist()})
 
     # ------------------------------------------------------------------ many more geometries: oracles only
     n_extra = 800 if ctx.quick else 15000
